@@ -1310,8 +1310,12 @@ class Builtins:
         if isinstance(nm, VStr) and nm.py is not None:
             outs = self.X.setattr(st, v, nm.py, val)
             return [Res(o.st, NONE) if o.kind == "next" else Res(o.st, exc=o.exc) for o in outs]
-        # dynamic attribute name (Branch.i<N> aliases): recorded, not modelled as state
+        # dynamic attribute name (Branch.i<N> aliases of self.values[N]): not modelled attribute by attribute; a
+        # ghost field remembers which `values` object the aliases were bound to (contracts.alias_goal)
         st.events.append(("dynamic-setattr",))
+        if isinstance(v, VObj) and isinstance(st.obj(v), Inst) and st.obj(v).cls == "Branch":
+            o = st.obj(v)
+            st.set_obj(v, o.with_field("%ialias", o.fields.get("values", NONE)))
         return [Res(st, NONE)]
 
     def bi_hash(self, st, fv, args, kw):
@@ -1394,6 +1398,26 @@ class Builtins:
         return [Res(st, VInt(r))]
 
     bi_bisect_bisect_right = bi_bisect_bisect
+
+    def bi_inst___dict___update(self, st, fv, args, kw):
+        """obj.__dict__.update(other.__dict__): every instance attribute of the other object is installed on obj"""
+        tgt = fv.self_v
+        src = args[0] if args else None
+        if not (isinstance(tgt, VObj) and isinstance(src, VBuiltin) and src.name == "inst.__dict__" and isinstance(src.self_v, VObj)):
+            raise Unsupported("__dict__.update form")
+        o, so = st.obj(tgt), st.obj(src.self_v)
+        if not (isinstance(o, Inst) and isinstance(so, Inst)):
+            raise Unsupported("__dict__.update on a non-instance")
+        for k, v in so.fields.items():
+            o = o.with_field(k, v)
+        st.set_obj(tgt, o)
+        return [Res(st, NONE)]
+
+    def bi_inst___dict___get(self, st, fv, args, kw):
+        o = st.obj(fv.self_v)
+        if not (isinstance(o, Inst) and args and isinstance(args[0], VStr) and args[0].py is not None):
+            raise Unsupported("__dict__.get form")
+        return [Res(st, o.fields.get(args[0].py, args[1] if len(args) > 1 else NONE))]
 
     def bi_min(self, st, fv, args, kw):
         return self._minmax(st, args, True)
